@@ -310,6 +310,12 @@ func c09ScriptLine(r *Rng, sampleTypes []string, big, ctl bool) string {
 	default:
 		line = c09Noise(r, 40, ctl)
 	}
+	return c09CleanLine(line, ctl)
+}
+
+// c09CleanLine makes a generated line typeable: no newline; for the real binary (ctl=false) no
+// control characters either (its readline treats them as keys); never a line that quits.
+func c09CleanLine(line string, ctl bool) string {
 	line = strings.ReplaceAll(line, "\n", " ")
 	if !ctl {
 		line = strings.Map(func(c rune) rune {
